@@ -678,6 +678,10 @@ def build_lib() -> dict:
                               "Properties": VClass("AmqpProperties")})
     lib["Basic"] = basic
     lib["aiormq"] = VModule("aiormq", {"spec": VModule("aiormq.spec", {"Basic": basic})})
+    kinds = {"POSITIONAL_ONLY": 0, "POSITIONAL_OR_KEYWORD": 1, "VAR_POSITIONAL": 2, "KEYWORD_ONLY": 3, "VAR_KEYWORD": 4}
+    param = VModule("inspect.Parameter", {k: VInt(v) for k, v in kinds.items()})
+    param.attrs["empty"] = VOpaque(z3.Const("inspect.Parameter.empty", Opaque))
+    lib["inspect"] = VModule("inspect", {"Parameter": param, "signature": VContractFn("inspect.signature")})
     lib["ceil"] = VBuiltin("math.ceil", b_ceil)
     lib["floor"] = VBuiltin("math.floor", b_floor)
     lib["math"] = VModule("math", {"ceil": lib["ceil"], "floor": lib["floor"]})
@@ -820,7 +824,33 @@ def s_seq_of(ip, args, kwargs, node):
     return VSeq(ref, et)
 
 
-SPEC_LIB = {"seq_of": VBuiltin("seq_of", s_seq_of), "is_insert_partial": VBuiltin("is_insert_partial", s_is_insert_partial),
+def s_map_with_if(ip, args, kwargs, node):
+    """spec: the map m with m[k] = v added when cond holds (a new map value)"""
+    from .loops import coerce
+    m, cond, k, v = args
+    c = _b(ip.truth(cond))
+    ref = ip.st.new_ref()
+    kt = term_of(k)
+    ip.st.heap[(ref, "dom")] = z3.If(c, z3.Store(ip.st.heap[(m.ref, "dom")], kt, z3.BoolVal(True)), ip.st.heap[(m.ref, "dom")])
+    ip.st.heap[(ref, "val")] = z3.If(c, z3.Store(ip.st.heap[(m.ref, "val")], kt, coerce(ip, v, m.val)), ip.st.heap[(m.ref, "val")])
+    return VMap(ref, m.key, m.val)
+
+
+def s_empty_map(ip, args, kwargs, node):
+    kt = ip.tenv.parse(args[0].concrete())
+    vt = ip.tenv.parse(args[1].concrete())
+    ref = ip.st.new_ref()
+    ip.st.heap[(ref, "dom")] = z3.K(sort_of_type(kt), z3.BoolVal(False))
+    ip.st.heap[(ref, "val")] = z3.K(sort_of_type(kt), z3.IntVal(0) if vt == ("int",) else z3.Const("dflt", sort_of_type(vt)))
+    return VMap(ref, kt, vt)
+
+
+def s_same_arr(ip, args, kwargs, node):
+    a, b = args
+    return VBool(z3.And(ip.st.heap[(a.ref, "len")] == ip.st.heap[(b.ref, "len")], ip.st.heap[(a.ref, "arr")] == ip.st.heap[(b.ref, "arr")]))
+
+
+SPEC_LIB = {"same_arr": VBuiltin("same_arr", s_same_arr), "map_with_if": VBuiltin("map_with_if", s_map_with_if), "empty_map": VBuiltin("empty_map", s_empty_map), "seq_of": VBuiltin("seq_of", s_seq_of), "is_insert_partial": VBuiltin("is_insert_partial", s_is_insert_partial),
             "partial_arg": VBuiltin("partial_arg", s_partial_arg),
             "is_noop_callable": VBuiltin("is_noop_callable", s_is_noop_callable), "last_now": VBuiltin("last_now", s_last_now), "contains": VBuiltin("contains", s_contains), "nonempty": VBuiltin("nonempty", s_nonempty), "nonempty_map": VBuiltin("nonempty_map", s_nonempty), "without": VBuiltin("without", s_without), "with_": VBuiltin("with_", s_with),
             "appended": VBuiltin("appended", s_appended),"dt_in_range": VBuiltin("dt_in_range", s_dt_in_range), "td_in_range": VBuiltin("td_in_range", s_td_in_range),
